@@ -51,6 +51,10 @@ class SourceDataWrapper(ABC):
         self._to_idx = to_idx if to_idx is not None else total_n_rows
         self._n_rows = self._to_idx - self._from_idx  # number of rows to be loaded
 
+        if self._from_idx < 0 or self._to_idx > total_n_rows:
+            # (a window reaching outside the data would be filled by repeating rows)
+            raise ValueError(f"Starting index {self._from_idx} and end index {self._to_idx} do not fit in the data "
+                             f"(total n. rows {total_n_rows})")
         if self._from_idx >= total_n_rows:
             raise ValueError(f"Starting index {self._from_idx} too large for total n. rows {total_n_rows}")
         if self._n_rows < 1:
@@ -196,6 +200,8 @@ class SourceDataWrapper(ABC):
             remainder_rows = 0
             logger.debug(f"Data will be loaded in a single chunk of {self._n_rows}")
         else:
+            if chunk_rows < 1:
+                raise ValueError(f"Chunk size must be a positive number of rows; got {chunk_rows}")
             n_full_chunks, remainder_rows = divmod(self._n_rows, chunk_rows)
             if n_full_chunks:
                 rem = f" plus a last, smaller chunk of {remainder_rows} rows" if remainder_rows else ""
